@@ -17,12 +17,25 @@ NOTES = {
  'C14-1': 'strengthened: missed at first (0x0b not among the keys); a key and a string constant holding every control character and every printable ASCII character added',
  'C15-1': 'strengthened: missed at first (no three-letter field name with an inner capital among the generated names); a naming leg encodes 17 field names under 5 option sets with every encoder and requires one spelling',
  'C16-3': 'not caught by C16 (no value with an escaped key after an escaped string); caught by C03 (token family, string with escapes split outside the token)',
+ 'C01-4': 'a reuse defect (stale container stack in the reader entry point of a reused / pooled parser): outside what C01 explores (fresh instance per input); caught by C07 (history search), where it belongs',
+ 'C03-5': 'the same change as C01-4 proposed independently: caught by C07',
+ 'C09-4': 'the same change as C01-4 proposed independently: caught by C07',
+ 'C02-5': 'a reuse defect (gen.Parser Reuse map pool index): caught by C07; the first run only reported a worker fault (the self-containing result overflowed the stack in the canoniser), mach.Canon gained a depth guard and C07 now names the call and the instance kind',
+ 'C06-5': 'a reuse defect (sen.Parser.plus survives in the reader entry point): caught by C07',
+ 'C04-5': 'a reuse defect (oj.Writer keeps the io.Writer of an earlier Write): caught by C07',
+ 'C10-5': 'a reuse defect (sen.Writer keeps the io.Writer of an earlier Write): caught by C07',
+ 'C03-4': 'strengthened: missed at first (SEN-only syntax is a wildcard finding in legs A and D); leg C gained SEN texts with + concatenation after token members and elements, split at every offset',
+ 'C05-6': 'not caught by C05 (its filters come from the constructors); strengthened C12: the logic leg now also builds every script through jp.NewFilter (the hand-copied twin of the filter reader in the path parser)',
+ 'C08-4': 'strengthened: missed at first (the jp group only used Get/First/Has/Set/Del on the shared expression); Locate, Walk, Remove and Modify on shared expressions with $-rooted filters added, the shared expressions are compared bit by bit afterwards',
+ 'C08-5': 'strengthened: missed at first (no call with a per-call NumConv option); the parse groups of C08 and the reader alphabets of C07 gained big-number documents read with and without NumConvString / NumConvFloat64',
+ 'C08-6': 'strengthened: missed at first (the expected results were computed on the shared objects, which completed them); shared objects are now snapshotted as constructed and must not change on first use, the race pass runs the concurrent calls on a second, never used set of shared objects, and the alt group has a type whose field types are only reachable through a map, slice, pointer and array',
+ 'C10-4': 'strengthened: missed at first (table columns were named a, b, c); the table family shared by C04 and C10 gained columns whose names a writer has to quote or escape',
  'C13-3': 'strengthened: missed at first (RemoveOne doing nothing is within "at most one location", which the check accepts); the *One forms are now also compared between simple and gen data ("behave the same on simple and gen data")',
  'C17-3': 'not caught by C17 (its documents have plain keys); it is a tokenizer defect: C02 gained the string-pair family (every ordered pair of string items in five two-string placements, so that what one string leaves behind in a front-end shows in the next) and catches it',
  'C19-1': 'strengthened: missed at first; the perturbation catalogue gained rename (same member count, different key set)',
  'C20-1': 'strengthened: missed at first (each has no description in doc.go, asmref does not model it); an item-independence leg compares each(list) with the concatenation of each([item])',
 }
-ALSO = {'C16-3': 'C03', 'C10-2': 'C10, C02', 'C17-3': 'C02'}
+ALSO = {'C16-3': 'C03', 'C10-2': 'C10, C02', 'C17-3': 'C02', 'C01-4': 'C07', 'C03-5': 'C07', 'C09-4': 'C07', 'C02-5': 'C07', 'C06-5': 'C07', 'C04-5': 'C07', 'C10-5': 'C07', 'C05-6': 'C12', 'C08-5': 'C08, C07'}
 verify = {}
 for l in open(os.path.join(SRC, 'verify.log')):
     m = re.match(r'(C\d+-\d): pkg=(\S+) suite_passes_with_change=(\S+) demo_fails_with_change=(\S+) demo_passes_without_change=(\S+) confirmed=(\d)', l)
